@@ -123,7 +123,13 @@ class GeckoSnapshot:
         )
 
     def _re_data_segment(self, groups):
-        data = groups[0].replace("'", "\\x27")
+        # The text is the inside of a bytes repr: a quote is either raw (repr used
+        # double quotes) or already escaped as \' (repr used single quotes)
+        data = re.sub(
+            r"\\.|'",
+            lambda m: "\\x27" if m.group(0) in ("'", "\\'") else m.group(0),
+            groups[0],
+        )
         bytes_ = ast.literal_eval(f"b'{data}'")
         self._status_block_handler.handle(bytes_, None)
         self._status_block_segments.append(self._status_block_handler.data)
